@@ -1,6 +1,6 @@
 (* C01 — Sticky hash is exactly the specified function of logical event identity.
    Statements only. `gen_*` are the literals read from /repo's source on this run. *)
-From EdxmlVerif Require Import Base.Prelude Base.Bytes Event.Hash Event.Hash_proofs Generated.C01_gen.
+From EdxmlVerif Require Import Base.Prelude Base.Bytes Event.Hash Event.Hash_proofs Event.Hash_inj Generated.C01_gen.
 From Coq Require Import Permutation Sorted.
 
 (* The hash input built with the literals that are in the code NOW is
@@ -77,3 +77,23 @@ Example C01_nonvacuous :
     {| h_src := [47]%N; h_typ := [116]%N; h_props := [([112]%N, [[98]%N; [97]%N; [98]%N]); ([113]%N, [[120]%N])] |}
   = [47; 10; 116; 10; 112; 58; 97; 255; 255; 255; 255; 112; 58; 98]%N.
 Proof. vm_compute. reflexivity. Qed.
+
+(* the converse: the pre-image determines source, type and the identity set — events with different identity have different
+   hash inputs.  Premises: strings consist of Unicode scalar values, source URI and type name contain no line feed *)
+Theorem C01_preimage_determines_identity : forall h1 h2 e1 e2, event_ok h1 e1 -> event_ok h2 e2 ->
+  preimage SEP OBJFMT LAYOUT h1 e1 = preimage SEP OBJFMT LAYOUT h2 e2 ->
+  h_src e1 = h_src e2 /\ h_typ e1 = h_typ e2 /\ forall b, in_identity h1 e1 b <-> in_identity h2 e2 b.
+Proof. exact preimage_determines_identity. Qed.
+Print Assumptions C01_preimage_determines_identity.
+
+(* an identity string determines its (property, object) pair when property names contain no colon *)
+Theorem C01_object_string_injective : forall p v p' v',
+  valid_str p = true -> valid_str p' = true -> valid_str v = true -> valid_str v' = true ->
+  colon_free p = true -> colon_free p' = true ->
+  spec_object_string p v = spec_object_string p' v' -> p = p' /\ v = v'.
+Proof. exact object_string_injective. Qed.
+Print Assumptions C01_object_string_injective.
+
+Theorem C01_utf8_injective : forall a b, valid_str a = true -> valid_str b = true -> utf8 a = utf8 b -> a = b.
+Proof. exact utf8_injective. Qed.
+Print Assumptions C01_utf8_injective.
